@@ -12,8 +12,12 @@ NAME = {"ia": "lim", "ba": "limit", "sa": "limit_hi", "fa": "l", "zz": "li", "no
 def nm(i): return NAME.get(i, i)
 
 
+# the integer the implementation sees for the model's integer value: 7 stands for a value that needs more than 32 bits
+IVAL = {0: 0, 1: 1, 7: 4294967303}
+
+
 def lit(ty, v):
-    if ty == "i": return str(v)
+    if ty == "i": return str(IVAL.get(v, v))
     if ty == "b": return "true" if v else "false"
     if ty == "s": return '"%s"' % v
     return "%.2f" % (v / 4.0)
@@ -29,11 +33,13 @@ def observer_rules():
                 out.append("rule %s_%d { condition: %s == %s }" % (name, k, nm(name), lit(ty, v)))
             if ty == "i":      # the same value used as an `of` quantifier over strings that never match: holds exactly for 0
                 out.append('rule %s_Q { strings: $q1 = "never-in-the-data-1" $q2 = "never-in-the-data-2" condition: %s of them }' % (name, nm(name)))
+                # the variable in every operand position of every integer operator (a literal would compile there: so must an external)
+                out.append('rule %s_OPS { condition: (%s + 1) - %s * 2 >= 0 or %s \\ 3 %% 5 == 9 or (%s & 3 | 1 ^ 2) == 99 or (1 << (%s & 7)) < 0 or (8 >> %s) < 0 or (1 << %s) == 3 or (%s << 1) < 0 or (%s >> 1) < 0 or -%s > 0 or ~%s >= 0 or true }' % ((name,) + (nm(name),) * 11))
     return "\n".join(out)
 
 
 def val_arg(ty, v):
-    if ty == "i": return str(v)
+    if ty == "i": return str(IVAL.get(v, v))
     if ty == "b": return "1" if v else "0"
     if ty == "s": return yv.hx(v.encode())
     return "%.2f" % (v / 4.0)
@@ -84,7 +90,9 @@ def history(r, nops):
     return lines, evs
 
 
-def observed_vals(matching):
+def observed_vals(matching, strict=False):
+    """strict: every variable is defined in the rule set; a variable that shows none of the values of its domain gets a value
+    outside the model's domain (of the same type, so that TLC can compare it)"""
     vals = {}
     for name, ty in VARS.items():
         if ty == "b":
@@ -92,6 +100,8 @@ def observed_vals(matching):
         else:
             hits = [k for k in range(len(DOM[ty])) if "%s_%d" % (name, k) in matching]
             vals[name] = DOM[ty][hits[0]] if len(hits) == 1 else "ambiguous:%s" % hits
+            if strict and len(hits) != 1:
+                vals[name] = "<no value of the domain>" if ty == "s" else -999
             if ty == "i" and len(hits) == 1 and ((name + "_Q") in matching) != (vals[name] == 0):
                 vals[name] = -999      # as an `of` quantifier the variable does not behave like its value: no value of the model's domain
     return vals
@@ -109,6 +119,8 @@ def observer_rules_for(ids):
                 out.append("rule %s_%d { condition: %s == %s }" % (name, k, nm(name), lit(ty, v)))
             if ty == "i":      # the same value used as an `of` quantifier over strings that never match: holds exactly for 0
                 out.append('rule %s_Q { strings: $q1 = "never-in-the-data-1" $q2 = "never-in-the-data-2" condition: %s of them }' % (name, nm(name)))
+                # the variable in every operand position of every integer operator (a literal would compile there: so must an external)
+                out.append('rule %s_OPS { condition: (%s + 1) - %s * 2 >= 0 or %s \\ 3 %% 5 == 9 or (%s & 3 | 1 ^ 2) == 99 or (1 << (%s & 7)) < 0 or (8 >> %s) < 0 or (1 << %s) == 3 or (%s << 1) < 0 or (%s >> 1) < 0 or -%s > 0 or ~%s >= 0 or true }' % ((name,) + (nm(name),) * 11))
     return "\n".join(out)
 
 
@@ -300,7 +312,7 @@ def c20(res, tier, seed):
                     ret, matching = scans[si]; si += 1
                     if ret != 0:
                         res.violation("scan failed with %d in an externals history" % ret, yv.save_replay("C20", "scanret_%d_%d" % (ci, hi), {"events": evs}))
-                    rec["vals"] = observed_vals(matching or set())
+                    rec["vals"] = observed_vals(matching or set(), strict=True)
                 records.append(rec); owner.append(hi)
             res.count(1, json.dumps(evs, sort_keys=True, default=str))
         attempt = 0
